@@ -156,7 +156,6 @@ Section Conserve.
       { destruct (hk m =? 1)%nat; [exact Hk|]. apply (IH PCheckHalt s Hk). }
       intros s1 K1.
       pose proof (K_enqueue (next_hop c (mdest m)) m (set_scnt (scnt s1 + 1) s1) K1 (Hhop _ Hm)) as K3.
-      destruct (inprq (enqueue c (next_hop c (mdest m)) m (set_scnt (scnt s1 + 1) s1))); [exact K3|].
       apply (IH PFlushToCap _ K3).
     - (* PQueueBytes *)
       intros Hd Hk. cbn [run]. exact (K_enqueue d m (set_scnt (scnt s + 1) s) Hk Hd).
@@ -164,7 +163,7 @@ Section Conserve.
       intros Hk. cbn [run].
       eapply resC_bind with (P1 := K); [apply (IH PCheckHalt s Hk)|]. intros s1 K1.
       eapply resC_bind with (P1 := K); [apply (IH (PQueueMany _ _) s1 Hloc K1)|]. intros s2 K2.
-      destruct (inprq s2); [exact K2|apply (IH PFlushToCap s2 K2)].
+      apply (IH PFlushToCap s2 K2).
     - (* PMcast *)
       intros Hds Hk. destruct ds as [|d ds]; cbn [run]; [exact Hk|]. inversion Hds as [|? ? Hd Hrest]; subst.
       eapply resC_bind with (P1 := K); [apply (IH (PAsync _) s); [cbn; exact Hd|exact Hk]|].
@@ -401,7 +400,7 @@ Proof.
   pose proof (enqueue_enq c (next_hop c (mdest m)) m s2) as Eq.
   set (s3 := enqueue c (next_hop c (mdest m)) m s2) in *.
   unfold s2 in E1, E2, E3, Eq. cbn [set_scnt inprq sbb log enq] in E1, E2, E3, Eq.
-  rewrite E1, Hq. rewrite run_PFlushToCap. rewrite E2.
+  rewrite run_PFlushToCap. rewrite E2.
   destruct (Z.ltb_spec (c_cap c) (sbb s + wire c m)); [lia|].
   exists s3. repeat split; assumption.
 Qed.
